@@ -159,6 +159,10 @@ def _programs(shard, seed):
                 yield {"model": "UnsupervisedOPF", "mode": "features", "X": X, "metric": metric,
                        "labels": [i % 2 for i in range(n)], "min_k": mn, "max_k": mx,
                        "queries": qs, "pad": pad}
+            if lk == "1d" and n == 4 and mx >= 2 and metric == "euclidean":
+                yield {"model": "UnsupervisedOPF", "mode": "features", "X": X, "metric": metric,
+                       "labels": [i % 2 for i in range(n)], "min_k": 1, "max_k": mx, "force_k": mx,
+                       "queries": [], "pad": pad, "positions": [0], "critical": True}
             for lab in E.labelings(n, max_classes=2):
                 lab = list(E.rename_classes(lab, seed))
                 yield {"model": "KNNSupervisedOPF", "mode": "features", "X": X, "metric": metric,
